@@ -235,6 +235,8 @@ Section Meta.
   Definition near_edge (c : cfg) (g : list bound) (x : list value) : bool :=
     nltb O (bin_dist (c_vars c) g x (nofZ O 10000000000000000)) (off_margin c).
 
+  Definition near_hill (c : cfg) (g : list bound) (h : hill) : bool := near_edge c g (h_c h).
+
   (* ---- state ---- *)
 
   Record state := mkState {
@@ -298,7 +300,8 @@ Section Meta.
         let gold := st_geom s in
         let eold := st_e s in
         let gradold := st_g s in
-        mkState (st_old s) (st_new s) (st_off_old s) (st_off_new s)
+        (* after the expansion the hills no longer within the margin of the edges leave hills_off_grid *)
+        mkState (st_old s) (st_new s) (filter (near_hill c g') (st_off_old s)) (filter (near_hill c g') (st_off_new s))
           (fun ix => let oix := remap_ix (c_vars c) g' gold ix in
                      if index_ok (gsizes gold) oix then eold oix else n0 O)
           (fun ix k => let oix := remap_ix (c_vars c) g' gold ix in
@@ -412,8 +415,6 @@ Section Meta.
   (* the hills written to the state: all of them without grids or with keepHills, else hills_off_grid *)
   Definition state_hills (c : cfg) (s : state) : list hill :=
     if negb (c_use_grids c) || c_keep c then st_old s ++ st_new s else st_off_old s ++ st_off_new s.
-
-  Definition near_hill (c : cfg) (g : list bound) (h : hill) : bool := near_edge c g (h_c h).
 
   (* read_state_data: the grids (with their geometry) are those of the file; every hill of the file is
      appended to hills and, when near the edges of the grid just read, to hills_off_grid; new_hills_begin is
